@@ -401,14 +401,22 @@ pub fn worker<P: Prop>(a: &WorkerArgs) -> i32 {
     let strat = P::strategy(a.tier);
     let mut runner = new_runner(a.seed, a.shard);
     for i in 0..n {
-        let tree = match strat.new_tree(&mut runner) {
-            Ok(t) => t,
-            Err(e) => {
+        let gen = catch_unwind(AssertUnwindSafe(|| strat.new_tree(&mut runner).map(|t| {
+            let c = t.current();
+            (t, c)
+        })));
+        let (tree, case) = match gen {
+            Ok(Ok(t)) => t,
+            Ok(Err(e)) => {
                 println!("NOTE generator rejected: {}", e);
                 continue;
             }
+            Err(_) => {
+                println!("NOTE GENERATOR PANICKED (harness bug): {}", take_last_panic());
+                let _ = std::io::stdout().flush();
+                return 2;
+            }
         };
-        let case = tree.current();
         let idx = format!("G{}", i);
         if let Err(msg) = run_one(idx.clone(), &case) {
             if msg == "reported" {
